@@ -158,6 +158,9 @@ func genDotenv() (string, string) {
 		cps = append(cps, i)
 	}
 	cps = append(cps, 0x85, 0xA0, 0xE9, 0xB2, 0x4E16)
+	// representatives of the generic class (neither space nor letter nor number): currency, arrow, combining mark,
+	// CJK punctuation, private use, emoji beyond the BMP
+	cps = append(cps, 0x20AC, 0x2192, 0x0301, 0x3001, 0xE000, 0x1F600)
 	for i, cp := range cps {
 		if i > 0 {
 			b.WriteString(", ")
@@ -165,7 +168,35 @@ func genDotenv() (string, string) {
 		r := rune(cp)
 		fmt.Fprintf(&b, "(%d, %v, %v)", cp, unicode.IsSpace(r), unicode.IsLetter(r) || unicode.IsNumber(r))
 	}
-	b.WriteString("]\n\nend CV.Gen\n")
+	b.WriteString("]\n\n")
+	// bodies of the modelled functions (comments and layout removed): any textual edit breaks `modelled_functions_are_source`
+	gf := parse("dotenv/godotenv.go")
+	ef := parse("dotenv/env.go")
+	b.WriteString("/-- source text of every function the C18 model mirrors -/\n")
+	for _, fb := range []struct {
+		name string
+		file *ast.File
+		recv string
+		fn   string
+	}{
+		{"parse", f, "parser", "parse"},
+		{"getStatementStart", f, "parser", "getStatementStart"},
+		{"locateKeyName", f, "parser", "locateKeyName"},
+		{"extractVarValue", f, "parser", "extractVarValue"},
+		{"expandEscapes", f, "", "expandEscapes"},
+		{"indexOfNonSpaceChar", f, "parser", "indexOfNonSpaceChar"},
+		{"hasQuotePrefix", f, "", "hasQuotePrefix"},
+		{"isSpace", f, "", "isSpace"},
+		{"expandVariables", gf, "", "expandVariables"},
+		{"UnmarshalWithLookup", gf, "", "UnmarshalWithLookup"},
+		{"ParseWithLookup", gf, "", "ParseWithLookup"},
+		{"ReadWithLookup", gf, "", "ReadWithLookup"},
+		{"GetEnvFromFile", ef, "", "GetEnvFromFile"},
+	} {
+		fmt.Fprintf(&b, "def dotenv_body_%s : String := %s\n", fb.name, leanStr(funcBody(fb.file, fb.recv, fb.fn)))
+	}
+	fmt.Fprintf(&b, "def dotenv_startsWithDigitRegex : String := %s\n", leanStr(regexVar(gf, "startsWithDigitRegex")))
+	b.WriteString("\nend CV.Gen\n")
 	fmt.Fprintf(logw, "dotenv consts: isSpace %d runes, key switch %d case lists\n", len(flat), len(lk))
 	return "Dotenv.lean", b.String()
 }
